@@ -111,5 +111,19 @@ func HarnessRangeServe() {
 	default:
 		vAssert(false, "c07.range-answered-with-another-status")
 	}
+	// what the range exchange leaves behind: a following request for the whole representation
+	// (also one whose Range the proxy does not parse and therefore ignores) gets the full 200
+	// with the representation's own headers - nothing of the slice
+	fh := http.Header{}
+	if symChoice(2) == 1 {
+		fh["Range"] = []string{"bytes=x-y"}
+	}
+	c3 := e.plain(newReq("GET", "o.test", "/big", "", fh))
+	vReach("followed-by-full-get")
+	vAssert(c3.answered && c3.status == 200 && string(c3.body) == string(full), "c07.full-200-body-differs")
+	vAssert(len(c3.header["Content-Range"]) == 0, "c07.slice-headers-on-a-later-full-response")
+	if cl, okL := vNumIn(one(c3.header, "Content-Length"), ""); okL {
+		vAssert(cl == size, "c07.slice-headers-on-a-later-full-response")
+	}
 	_ = time.Now
 }
